@@ -3,5 +3,5 @@
    no Extract Constant. *)
 From Coq Require Import ExtrOcamlBasic.
 Require Import Verif.IpcDataModel Verif.IpcHostileModel.
-Extraction "model_C06.ml" init negotiate step fixed orig client_fd_readable server_fd_pollin evq_len
+Extraction "model_C06.ml" init negotiate negotiate_enforced step fixed orig client_fd_readable server_fd_pollin evq_len
   hs_init hs_step census lab_step recv_write_extent.
